@@ -71,6 +71,7 @@ func pairSpace(tier, opt string) []pairLeg {
 	add("strings", StrDocs())
 	add("hostile", thin(HostileDocs(), 110))
 	add("hostile2", HostileDocs2())
+	add("obj-in-list", ObjInList())
 	switch {
 	case o == "none":
 		if thorough {
